@@ -2,6 +2,7 @@ import Vata.Lang
 import Vata.Proofs.Compl
 import Vata.Proofs.ComplTotal
 import Vata.Proofs.Sanitize
+import Vata.Properties.RefTotal
 /-!
 # C06 – Complement accepts exactly the trees over the alphabet the automaton rejects
 
@@ -150,21 +151,41 @@ example : (match Compl.complTD Compl.Ex.aLeft Compl.Ex.sg 20 with
     | some C => isComplM C Compl.Ex.aLeft Compl.Ex.sg 50
     | none => none) = some true := by decide
 
+/-- the chain "model of `Complement`, then the reference decider" never gets stuck: with `2^|Q_A| + 1` units of fuel the
+model returns an automaton `C`, and for every fuel above the explicit bound `fuelBoundCompl C A Sg ≤ 2^(|Q_C|+|Q_A|+1)` the
+decider `isComplM` answers `true` on it -/
+theorem C06_model_passes_reference (A : TA) (Sg : List (Nat × Nat)) :
+    ∃ C, Compl.complTD A Sg (2 ^ A.states.length + 1) = some C ∧
+      ∀ fuel, fuelBoundCompl C A Sg ≤ fuel → isComplM C A Sg fuel = some true := by
+  obtain ⟨C, hC, hspec⟩ := (C06_model_total A Sg).2
+  refine ⟨C, hC, fun fuel hf => ?_⟩
+  obtain ⟨b, hb, e⟩ := C06_reference_total C A Sg fuel hf
+  rw [hb, e.mpr hspec]
+
+example : (Compl.complTD Compl.Ex.aLeft Compl.Ex.sg (2 ^ Compl.Ex.aLeft.states.length + 1)).isSome = true := by decide +kernel
+
 /-!
+## closed since the last refresh of this file
+
+* "No totality theorem for the decider `isComplM`": `C06_reference_total`, `C06_reference_bound`
+  (`Vata/Properties/RefTotal.lean`: total above `fuelBoundCompl C A Sg ≤ 2^(|C| + |A| + 1)`, whatever the size of the
+  alphabet; `driver_fuel_compl`: the driver's fuel suffices up to 18 states altogether), composed with the model in
+  `C06_model_passes_reference`.
+
 ## not yet proved
 
 * **The preorder.**  `ExplicitDownwardComplementation::Compute` is parametrised by a preorder on the states;
   `Complement` instantiates it with the identity, and only this instance is modelled (with it
   `post[i].contains/refine/insert` followed by `std::sort` is `normS`).  Nothing is proved for a non-trivial preorder.
+  (The container `post[i]` is an `Antichain1C`; the class has a model and a history theorem of its own,
+  `Util_Antichain_post_history`, which is not connected to `complTD`.)
 * **Container orders.**  `todo` is an address-ordered hash set in the C++, FIFO in the model; the numbers of the
   macro-states therefore differ, the automata agree up to this renumbering.  "The model returns the same automaton as the
   code up to renaming" is checked by the correspondence check (language equality with the reference), not proved.
 * **The alphabet.**  That the symbol dictionary of the on-the-fly alphabet holds exactly the ranked symbols `Sg` handed
   to the model – in particular that a symbol is registered with ONE rank – is an assumption about the caller; symbols
   that occur in `A` but not in `Sg` are simply not complemented by the model (second clause of `C06_model_exact`).
-* The decider `isComplM` is total above the explicit bound `fuelBoundCompl C A Sg ≤ 2^(|C| + |A| + 1)`
-  (`C06_reference_total`, `C06_reference_bound` in `Vata/Properties/RefTotal.lean`).  The two
-  constructions `complTD` and `complRef` are total with explicit exponential bounds (`C06_model_total`,
-  `C06_reference_construction_exact`); none of the bounds is tight.
+* The two constructions `complTD` and `complRef` are total with explicit exponential bounds (`C06_model_total`,
+  `C06_reference_construction_exact`), and so is the decider; none of the bounds is tight.
 -/
 end Vata.Props
